@@ -7,10 +7,10 @@ SPEC = {
              'busy / failing / blocked / resource-starved, capacities 1-8 / unbounded, delays 0-2, mixed single '
              'parts and batches) under 4 tie-break policies; after EVERY event each buffer is checked: stored '
              'leaf parts <= capacity, level() == stored leaf parts, departures are a prefix of the stored order, '
-             'no departure before arrival + minimum delay (== on the dyadic grid); a case is one model; '
+             'no departure before arrival + minimum delay (== on the dyadic grid; a second leg with decimal, not exactly representable times and a 4-ulp tolerance); a case is one model; '
              'non-trivial = a buffer was full at least once and a head part waited for its downstream'),
     'floors': {'quick': {'buffer_checks': 50000, 'buffer_departures': 5000,
-                         'buffer_departures_after_waiting_for_downstream': 500},
+                         'buffer_departures_after_waiting_for_downstream': 500, 'decimal_buffer_departures': 2000},
                'thorough': {'buffer_checks': 1000000, 'buffer_departures': 100000,
                             'buffer_departures_after_waiting_for_downstream': 10000}},
     'assumptions': ['times on the dyadic grid: the delay comparison is exact'],
@@ -27,6 +27,9 @@ def run(sh):
     n = 400 if sh.tier == 'quick' else 8000
     engine_line.run_profile(sh, 'C05', 'buffers', n * 3 // 4, MONITORS, nontrivial)
     engine_line.run_profile(sh, 'C05', 'blocking', n // 4, MONITORS, nontrivial)
+    from ..modelgen import DECIMAL
+    engine_line.run_profile(sh, 'C05', 'buffers', n // 2, MONITORS, nontrivial, prefix='decimal_', overrides=DECIMAL,
+                            tag='decimal')
 
 
 def replay(sh, v):
